@@ -245,7 +245,7 @@ const DIRECTED: usize = 11;
 
 fn plan(tier_quick: bool, items: &[Item]) -> Plan {
     let dev = std::env::var("VERIF_C10_MUTANTS").ok().and_then(|s| s.parse::<usize>().ok());
-    Plan { benign: items.len(), mutants: dev.unwrap_or(if tier_quick { 7000 } else { 60_000 }), directed: DIRECTED, base_cap: if tier_quick { 300_000 } else { 1_100_000 } }
+    Plan { benign: items.len(), mutants: dev.unwrap_or(if tier_quick { 4000 } else { 60_000 }), directed: DIRECTED, base_cap: if tier_quick { 300_000 } else { 1_100_000 } }
 }
 
 fn default_store(items: &[Item]) -> std::sync::Arc<Vec<u8>> {
